@@ -80,4 +80,34 @@ META = {
          'reduce of the density nodes values) is validated by the correspondence check, not proved end to end; "gradient agrees with '
          'the derivative" beyond the stencil identity and exactness on quadratics is numerical analysis (sampled); scipy densities and '
          'samplers are oracles ("draws have positive density" is sampled).'),
+ 'C01': dict(
+    text='Theorems (Properties/C01.v) over the executable model of Rejection (coq/Sched/Reject.v: n+b row buffer, acceptance filter, '
+         'tail overwrite, stable lexsort by (distance, unfilled), state meta, batch objective incl. the binary64 estimator in '
+         'PrimFloat): an invariant holds after every history of consumed batches, from which the returned first n rows are ascending, '
+         'every returned row holding a draw is an accepted consumed draw carried as a whole row (with multiplicity), every accepted '
+         'draw left out is no better than any returned row, rows that are no draw appear only if fewer than n were accepted, returned '
+         'draws are <= the threshold when one is given, and with a simulation budget exactly the objective number of batches is '
+         'consumed; the sort is a sorted permutation; the float estimator never stops with too few acceptable draws (finite domain '
+         'n<=12, b<=6, k<=16 by vm_compute, bound stated). Correspondence on every run: real Rejection.sample with an OutputPool as the '
+         'independent record of every consumed draw, all three objective forms, ties and infinite discrepancies forced, scripted '
+         'client with max_parallel 1-4: returned rows (discrepancy and row code), threshold, n_sim, n_batches must equal the model '
+         'bit for bit, and the decidable statement of the property is evaluated on the implementation result.',
+    note=COMMON_NOTE + 'PrimFloat primitives (kernel) appear in Print Assumptions of theorems that mention the estimator. Partial: the '
+         'adaptive-distance path (_update_distances) is covered by the C12 check, not by this model; the estimator theorem is for the '
+         'stated finite domain only (beyond it the correspondence speaks); numpy lexsort assumed stable.'),
+ 'C04': dict(
+    text='Theorems (Properties/C04.v) over the executable model of BatchHandler + ParameterInference.iterate/_allow_submit/finished/'
+         'infer with an explicit readiness oracle (coq/Sched/Sched.v), for EVERY inference method whose supplied batch values are '
+         'stable within a round, every oracle and every max_parallel_batches >= 1: the inference ends in exactly the state of the '
+         'sequential run, nothing is pending at return, the scheduler never raises its own errors, one iteration is one sequential '
+         'step, and the client-call trace is well formed (indices consumed 0,1,2,... exactly once, always from the oldest outstanding '
+         'task, at most max_parallel outstanding, cancelled tasks never read); instance theorem for the rejection sampler. '
+         'Correspondence on every run: seeded Rejection (3 objective forms) and multi-round SMC under a scripted ClientBase (random '
+         'is_ready answers, execution at submit / get_result / shuffled), traces by batch index checked with the proved trace '
+         'predicate in Coq and, for rejection, equal to the model trace under the same oracle; outputs, thresholds, weights and n_sim '
+         'equal to the sequential run bit for bit.',
+    note=COMMON_NOTE + 'PrimFloat primitives appear through the rejection instance. Partial: real process pools exhibit few '
+         'schedules (the theorem covers all schedules of the scheduler logic; the pools are runtime); the SMC instance is validated '
+         'by the correspondence runs and the generic theorem hypothesis (proposals drawn per submission from the round stream, '
+         'pending cancelled at round end), not instantiated in Coq; meta submission_index is schedule dependent by design.'),
 }
